@@ -226,7 +226,7 @@ func GenFlow(r *Rand, name string, o GenOpts) *Program {
 	if !p.Bare && r.Intn(100) < o.ImportPct {
 		g.importize()
 	}
-	if !p.Bare && !p.Wrap && len(f.Results) > 0 && r.Chance(1, 3) {
+	if !p.Bare && !p.Wrap && len(f.Results) > 0 && r.Chance(1, 2) {
 		f.ResultsVia = true
 	}
 	g.finish()
